@@ -11,9 +11,15 @@ cmd = ["cargo", "nextest", "run", "--workspace", "--no-fail-fast", "--tool-confi
        "--profile", "pb", "--test-threads", "8", "--offline"]
 p = subprocess.run(cmd, cwd=repo, env=env, capture_output=True, text=True)
 junit = None
-for root, _, files in os.walk(os.path.join(repo, "target", "nextest")):
-    if "junit.xml" in files:
-        junit = os.path.join(root, "junit.xml")
+cands = [os.path.join(repo, "target", "nextest")]
+if os.environ.get("CARGO_TARGET_DIR"):
+    cands.append(os.path.join(os.environ["CARGO_TARGET_DIR"], "nextest"))
+for cand in cands:
+    for root, _, files in os.walk(cand):
+        if "junit.xml" in files:
+            j = os.path.join(root, "junit.xml")
+            if junit is None or os.path.getmtime(j) > os.path.getmtime(junit):
+                junit = j
 if not junit:
     print("no junit.xml; nextest output tail:\n", p.stderr[-3000:]); sys.exit(2)
 passed, failed = set(), set()
